@@ -1,10 +1,13 @@
 /-
   Props.C16 — self-describing encodings decode faithfully without a schema.
-  (The faithful-leaves theorem over the sub-universe is not closed yet; what is here is proved.)
+  The leaves theorems are for types with universal tags and EXPLICIT tagging only, without SET / SET OF
+  (whose wire order is not the declaration order) and without DEFAULT members (`Ty.selfDesc`).
 -/
 import Asn1.Generated
 import Asn1.Schemaless
 import Proofs.Fuel
+import Proofs.SchemalessLeaves
+import Proofs.Codec
 
 namespace Asn1.C16
 
@@ -34,5 +37,90 @@ theorem schemaless_tables :
     Generated.derDecByTag.consStr = [] ∧ Generated.derDecByTag.consBits = false ∧
     Generated.derDecByTag.boolStrict = true ∧ Generated.cerDecByTag.boolStrict = true := by
   decide
+
+
+/-- **every encoding the rules allow is decoded without a type to a value object with the value's
+    leaves** (`Ty.selfDesc` types): for every BER form of the value — any length forms, definite or
+    indefinite nesting, segmented strings, any TRUE octet, OPTIONAL members present or not — followed by
+    any octets, the schemaless decoder returns an object (never a placeholder) whose scalar leaves, in
+    order, are those of the value, and leaves the tail. -/
+theorem schemaless_recovers_leaves (t : Ty) (v : Val) (x : TLV) (tail : Bytes)
+    (hs : t.selfDesc = true) (hw : t.WF = true) (hx : x.WF) (hb : IsBer berProfile t v x) :
+    ∃ u, decodeSchemaless Generated.berDecByTag (x.ser ++ tail) = .ok (u, tail) ∧
+      u.leaves = leavesOf t v := by
+  have hC : Compat berProfile Generated.berDecByTag :=
+    { bool := fun _ => rfl, seg := fun _ => ⟨rfl, by decide⟩ }
+  obtain ⟨u, hd, hl⟩ := leaves_ty berProfile Generated.berDecByTag hC t v x hs hw hb
+  refine ⟨u, ?_, hl⟩
+  unfold decodeSchemaless
+  rw [parseOne_ser Generated.berDecByTag.parse x tail hx (Or.inl rfl)]
+  simp [hd, Except.map]
+
+/-- **DER, CER and BER encodings of a value all give its leaves back without a type**: what the three
+    encoders write for a value of a `selfDesc` type is read by the schemaless decoder of the same
+    codec as an object with the value's leaves and nothing left over. -/
+theorem encodings_give_leaves (t : Ty) (v : Val) (hs : t.selfDesc = true) (hw : t.WF = true)
+    (hty : HasType t v = true) (hn : noE3 true t v = true) :
+    (∀ b, t.reg true Generated.derEnc true = true → encItem Generated.derEnc {} t v = .ok b →
+        ∃ u, decodeSchemaless Generated.derDecByTag b = .ok (u, []) ∧ u.leaves = leavesOf t v) ∧
+    (∀ b, t.reg true Generated.cerEnc false = true → encItem Generated.cerEnc {} t v = .ok b →
+        ∃ u, decodeSchemaless Generated.cerDecByTag b = .ok (u, []) ∧ u.leaves = leavesOf t v) ∧
+    (∀ b defMode maxChunk, t.reg true Generated.berEnc defMode = true →
+        encItem Generated.berEnc { defMode := defMode, maxChunk := maxChunk } t v = .ok b →
+        ∃ u, decodeSchemaless Generated.berDecByTag b = .ok (u, []) ∧ u.leaves = leavesOf t v) := by
+  refine ⟨?_, ?_, ?_⟩
+  · intro b hreg he
+    have hR : EncRegion Generated.derEnc derProfile (Generated.derEnc.fixedChunk.getD ({} : EncOpts).maxChunk) :=
+      { boolT := by decide, chunk := Or.inl rfl, setOmit := Or.inr rfl }
+    obtain ⟨x, hb, hxw, _, hxd, hber⟩ := encode_spec Generated.derEnc derProfile true 0 hR false rfl t v b hreg hw hty hn he
+    have hC : Compat derProfile Generated.derDecByTag := ⟨fun h => (by cases h), fun h => (by cases h)⟩
+    obtain ⟨u, hd, hl⟩ := leaves_ty derProfile Generated.derDecByTag hC t v x hs hw hber
+    refine ⟨u, ?_, hl⟩
+    subst hb
+    unfold decodeSchemaless
+    have := parseOne_ser Generated.derDecByTag.parse x [] hxw (Or.inr (hxd rfl))
+    rw [List.append_nil] at this
+    rw [this]; simp [hd, Except.map]
+  · intro b hreg he
+    have hR : EncRegion Generated.cerEnc cerProfile (Generated.cerEnc.fixedChunk.getD ({} : EncOpts).maxChunk) :=
+      { boolT := by decide, chunk := Or.inr rfl, setOmit := Or.inr rfl }
+    obtain ⟨x, hb, hxw, _, _, hber⟩ := encode_spec Generated.cerEnc cerProfile false 1000 hR false rfl t v b hreg hw hty hn he
+    have hC : Compat cerProfile Generated.cerDecByTag := ⟨fun h => (by cases h), fun _ => ⟨rfl, by decide⟩⟩
+    obtain ⟨u, hd, hl⟩ := leaves_ty cerProfile Generated.cerDecByTag hC t v x hs hw hber
+    refine ⟨u, ?_, hl⟩
+    subst hb
+    unfold decodeSchemaless
+    have := parseOne_ser Generated.cerDecByTag.parse x [] hxw (Or.inl rfl)
+    rw [List.append_nil] at this
+    rw [this]; simp [hd, Except.map]
+  · intro b defMode maxChunk hreg he
+    have hR : EncRegion Generated.berEnc berProfile maxChunk :=
+      { boolT := by decide, chunk := Or.inr rfl, setOmit := Or.inl rfl }
+    obtain ⟨x, hb, hxw, _, _, hber⟩ := encode_spec Generated.berEnc berProfile defMode maxChunk hR false rfl t v b hreg hw hty
+      (noE3_false t v) he
+    have hC : Compat berProfile Generated.berDecByTag := ⟨fun _ => rfl, fun _ => ⟨rfl, by decide⟩⟩
+    obtain ⟨u, hd, hl⟩ := leaves_ty berProfile Generated.berDecByTag hC t v x hs hw hber
+    refine ⟨u, ?_, hl⟩
+    subst hb
+    unfold decodeSchemaless
+    have := parseOne_ser Generated.berDecByTag.parse x [] hxw (Or.inl rfl)
+    rw [List.append_nil] at this
+    rw [this]; simp [hd, Except.map]
+
+/-- the hypotheses are met by a nested record with an explicitly tagged member, an absent OPTIONAL
+    and a SEQUENCE OF -/
+example :
+    let t : Ty := .seq (.cons .req (.tagged true .context 2 (.prim (.str 12)))
+      (.cons .opt (.prim .boolean) (.cons .req (.seqOf (.seq (.cons .req (.prim .integer) .nil))) .nil)))
+    let v : Val := .seq [.str [0x61], .absent, .seqOf [.seq [.int 5], .seq [.int (-1)]]]
+    t.selfDesc = true ∧ t.WF = true ∧ HasType t v = true ∧ noE3 true t v = true ∧
+      t.reg true Generated.derEnc true = true := by
+  decide +kernel
+
+example : leavesOf (.seq (.cons .req (.tagged true .context 2 (.prim (.str 12)))
+      (.cons .opt (.prim .boolean) (.cons .req (.seqOf (.seq (.cons .req (.prim .integer) .nil))) .nil))))
+    (.seq [.str [0x61], .absent, .seqOf [.seq [.int 5], .seq [.int (-1)]]])
+    = [(12, .str [0x61]), (2, .int 5), (2, .int (-1))] := by
+  simp [leavesOf, leavesF, leavesE, PrimTy.univNum]
 
 end Asn1.C16
